@@ -6,7 +6,7 @@ import contracts.standins_peaks as B
 PROVED = [PK.symmetric_moving_average]
 
 PROPERTY = Property(
-    "C19", "proof",
+    "C19", "exploration",
     contracts=PROVED,
     standins=[StandIn("find_peaks = gap-threshold clusters", B.find_peaks, B.find_peaks.harness),
               StandIn("hits -> peaks -> sum_waveform: area conservation", B.peak_chain, B.peak_chain.harness),
